@@ -362,24 +362,31 @@ func (ug *urlGen) carrierHTML(carrier string, classes []string, desc string) str
 	g := ug.g
 	w := g.words
 	r1 := func() string { return ug.ref(classes[0], carrier) }
+	// link text: usually words, sometimes only a symbol (footnote marks, arrows) - not a word for the word counter
+	lt := func() string {
+		if g.rng.Intn(4) == 0 {
+			return g.pick("\u2020", "\u2191", "\u2192", "\u21a9", "\u00b6", "[*]", "\u00bb")
+		}
+		return w(2)
+	}
 	tbl := func(cell string) string {
 		return "<table><tr><th>" + w(1) + "</th><th>" + w(1) + "</th></tr><tr><td>" + cell + "</td><td>" + w(2) +
 			"</td></tr><tr><td>" + w(2) + "</td><td>" + w(2) + "</td></tr></table>"
 	}
 	switch carrier {
 	case "a_para":
-		return "<p>" + w(30) + ` <a href="` + r1() + `">` + w(2) + "</a> " + w(30) + "</p>"
+		return "<p>" + w(30) + ` <a href="` + r1() + `">` + lt() + "</a> " + w(30) + "</p>"
 	case "a_wrap":
 		// the whole text of the block sits in an inline element inside the link
 		return `<p><a href="` + r1() + `"><em>` + w(45) + `</em></a></p>`
 	case "a_head":
 		return `<h2><a href="` + r1() + `"><span>` + w(6) + `</span></a></h2>`
 	case "a_li":
-		return "<ul><li>" + w(25) + ` <a href="` + r1() + `">` + w(2) + "</a> " + w(25) + "</li><li>" + w(45) + "</li></ul>"
+		return "<ul><li>" + w(25) + ` <a href="` + r1() + `">` + lt() + "</a> " + w(25) + "</li><li>" + w(45) + "</li></ul>"
 	case "a_figcap":
-		return `<figure><img src="` + ug.filler(".png") + `"><figcaption>` + w(6) + ` <a href="` + r1() + `">` + w(2) + "</a></figcaption></figure>"
+		return `<figure><img src="` + ug.filler(".png") + `"><figcaption>` + w(6) + ` <a href="` + r1() + `">` + lt() + "</a></figcaption></figure>"
 	case "a_cell":
-		return tbl(w(3) + ` <a href="` + r1() + `">` + w(2) + "</a>")
+		return tbl(w(3) + ` <a href="` + r1() + `">` + lt() + "</a>")
 	case "img_src":
 		return `<img src="` + r1() + `" alt="` + w(2) + `">`
 	case "img_srcset":
